@@ -44,14 +44,21 @@ pub struct Scratch {
 impl Scratch {
     pub fn new() -> Result<Scratch, String> {
         let n = COUNTER.fetch_add(1, Ordering::Relaxed);
-        let root = PathBuf::from(format!(
-            "/dev/shm/darklua-verif-{}-{}",
-            std::process::id(),
-            n
-        ));
-        let _ = fs::remove_dir_all(&root);
-        fs::create_dir_all(&root).map_err(|e| format!("cannot create {}: {}", root.display(), e))?;
-        Ok(Scratch { root })
+        // tmpfs when there is one (its readdir order is a function of creation order);
+        // any temporary directory otherwise
+        for base in ["/dev/shm".to_owned(), std::env::temp_dir().to_string_lossy().into_owned()] {
+            let root = PathBuf::from(format!(
+                "{}/darklua-verif-{}-{}",
+                base,
+                std::process::id(),
+                n
+            ));
+            let _ = fs::remove_dir_all(&root);
+            if fs::create_dir_all(&root).is_ok() {
+                return Ok(Scratch { root });
+            }
+        }
+        Err("cannot create a scratch directory under /dev/shm or the temporary directory".to_owned())
     }
 }
 
